@@ -31,6 +31,7 @@ CORPUS = [
     "fn main() { println(if true { 1 } else { 2 }, { let q = 4; q * 2 }); }",
     "fn main() { let o = new { f: fn() -> int { 1 }, a: 2 }; println(o.a); let g = o.f; println(g()); }",
     "fn main() { let l = [0]; for i in 0..200 { l.push(i); } let s = 0; for x in l { s += x; } println(s, l.len()); }",
+    "fn main() { let o = new { a: 1, b: \"s\" }; let d = o as { ? }; d.set(\"a\", \"str\"); println(o.a + 1); println(d); }",
     "$N = int;\nfn main() { $N = 4; println($N); $N += 1; println($N); }",
     "$S = { a: int, l: [int] };\nfn bump(s: $S, k: int) -> int { s.a += k; s.a } fn main() { println(bump(2)); println(bump(3)); $S = new { a: 40, l: [1] }; println(bump(1)); println($S); }",
     "fn main() { let o: ?int = none; try { println(1 + o.unwrap()); } catch e { println(\"caught\"); }; println(2); }",
